@@ -1180,16 +1180,16 @@ func c04Crash(c *Ctx, idx int) CaseResult {
 // ---------- C06 under recovery: a gate that was durably decided stays decided ----------
 
 // crashGatePlan: scopes whose bypass / pre / continuous gate is decided (failed or passed) while the other gating
-// group is still executing; in half of the plans the checks that failed before the crash pass after the restart
-// (Steps2) and the other way round - a durable decision must not be taken again.
+// group is still executing; in most of the plans the checks that failed before the crash pass after the restart
+// (Steps2) - a durable decision must not be taken again.
 func crashGatePlan(r *rand.Rand, variant int) spec.Plan {
 	p := spec.Plan{Name: "p0"}
 	// the variant enumerates level x gate situation, so that ten consecutive crash cases cover all of them
 	blockLevel, gcase, heal := variant%2 == 0, (variant/2)%5, (variant/10)%3 != 2
 	grp := func(ok bool, lo, hi int) *spec.Checks {
 		a := spec.Action{Steps: step(ok, lo+r.Intn(hi-lo+1))}
-		if heal {
-			a.Steps2 = step(!ok, 50+r.Intn(200))
+		if heal && !ok {
+			a.Steps2 = step(true, 50+r.Intn(200)) // failed before the crash, passes after the restart
 		}
 		return &spec.Checks{DelayUS: 300 + r.Intn(500), Actions: []spec.Action{a}}
 	}
